@@ -340,3 +340,32 @@ def impl_python(code, inp=None, timeout=600, hashseed="0", extra_env=None):
     if extra_env:
         env.update(extra_env)
     return sh([PY, "-c", code], timeout=timeout, env=env, inp=inp, cwd="/")
+
+
+# ---------------------------------------------------------------- CPU-time guard for in-process calls into the engine
+class Hang(BaseException):
+    """raised by cpu_guard when the guarded call used more CPU time than allowed (not an Exception: the engine's
+    `except Exception` clauses must not swallow it)"""
+
+
+class cpu_guard:
+    """with cpu_guard(5.0): <call into the engine>   — raises Hang after that many seconds of CPU time of this
+    process (re-firing every second), main thread only"""
+
+    def __init__(self, seconds=5.0):
+        self.seconds = seconds
+
+    def __enter__(self):
+        import signal
+
+        def _fire(sig, frm):
+            raise Hang()
+        self._old = signal.signal(signal.SIGVTALRM, _fire)
+        signal.setitimer(signal.ITIMER_VIRTUAL, self.seconds, 1.0)
+        return self
+
+    def __exit__(self, *exc):
+        import signal
+        signal.setitimer(signal.ITIMER_VIRTUAL, 0)
+        signal.signal(signal.SIGVTALRM, self._old)
+        return False
